@@ -158,7 +158,7 @@ type Call struct {
 	PathKey string // identity used by the overlap monitor
 	Kind    Kind   // kind the receiver resolved to (-1 unknown)
 	Task    *simrt.Task
-	Req     interface{} // request attribution, copied from Task.Local["req"]
+	Req     interface{} // request attribution, copied from Task.Local["inherit.req"] (tasks spawned while handling a request work on its behalf)
 	Conn    interface{} // connection attribution, from Task.Local["inherit.conn"]
 	EnterAt int
 	ExitAt  int
@@ -245,6 +245,13 @@ type Handle struct {
 	fs        *FS
 	parent    *Handle
 	name      string
+	// cpath is the handle's own idea of where it lives, as a path-based
+	// backend such as localfs keeps it: computed once from the parent's path
+	// when the handle is made, copied by a clone, and afterwards changed only
+	// by Renamed (from the new parent's path *at that moment*).  A rename of
+	// an ancestor therefore reaches it only if the server tells it, after
+	// having told the ancestor.
+	cpath     []string
 	bound     *Inode // object this handle was created for
 	pinned    *Inode // set by Open/Create: I/O goes here, like an fd
 	gone      bool   // the directory entry this handle named has been removed
@@ -264,11 +271,7 @@ func (h *Handle) Path() string {
 	if h.parent == nil {
 		return "/"
 	}
-	p := h.parent.Path()
-	if p == "/" {
-		return "/" + h.name
-	}
-	return p + "/" + h.name
+	return "/" + strings.Join(h.cpath, "/")
 }
 
 func (h *Handle) Name() string    { return h.name }
@@ -279,14 +282,17 @@ func (h *Handle) Closed() bool    { return h.Closes > 0 }
 
 // resolve follows the handle's path from the root.
 func (h *Handle) resolve() *Inode {
+	n := h.fs.Root
 	if h.parent == nil {
-		return h.fs.Root
+		return n
 	}
-	p := h.parent.resolve()
-	if p == nil || p.Kind != Dir {
-		return nil
+	for _, name := range h.cpath {
+		if n == nil || n.Kind != Dir {
+			return nil
+		}
+		n = n.kids.Get(name)
 	}
-	return p.kids.Get(h.name)
+	return n
 }
 
 // node is the object operations act on.
@@ -420,6 +426,9 @@ func (fs *FS) viol(prop, oracle, key, format string, args ...interface{}) {
 
 func (fs *FS) newHandle(parent *Handle, name string, bound *Inode, by string) *Handle {
 	h := &Handle{ID: len(fs.Handles), fs: fs, parent: parent, name: name, bound: bound, CreatedBy: by}
+	if parent != nil {
+		h.cpath = append(append([]string{}, parent.cpath...), name)
+	}
 	if t := simrt.Current(); t != nil {
 		h.Conn = t.Local.Get("inherit.conn")
 	}
@@ -506,7 +515,7 @@ func (fs *FS) begin(c *Call) {
 	fs.ByMethod.Set(c.Method, fs.ByMethod.Get(c.Method)+1)
 	c.Task = simrt.Current()
 	if c.Task != nil {
-		c.Req = c.Task.Local.Get("req")
+		c.Req = c.Task.Local.Get("inherit.req")
 		c.Conn = c.Task.Local.Get("inherit.conn")
 	}
 	c.EnterAt = simrt.Steps()
@@ -711,6 +720,7 @@ func (h *Handle) walk(c *Call, names []string) (*Handle, error) {
 	}
 	if len(names) == 0 {
 		nh := fs.newHandle(h.parent, h.name, cur, c.Method)
+		nh.cpath = append([]string{}, h.cpath...)
 		nh.gone = h.gone
 		if h.gone || h.resolve() != cur {
 			// cloning an unlinked-but-open object: the clone denotes it too
@@ -1386,6 +1396,7 @@ func (h *Handle) Renamed(newDir p9.File, newName string) {
 	// may not fail: faults are not applied here
 	if th != nil {
 		h.parent = th
+		h.cpath = append(append([]string{}, th.cpath...), newName)
 	}
 	h.name = newName
 }
